@@ -76,7 +76,7 @@ func facts(repo string, w io.Writer) error {
 }
 
 type op struct {
-	Op string `json:"op"`           // arrive | cancel | finish
+	Op string `json:"op"`           // arrive | arrive_dead | cancel | cancel_newest | finish | abort
 	EP string `json:"ep,omitempty"` // http | otlp (arrive)
 }
 
@@ -101,6 +101,7 @@ type reqState struct {
 	ep          string
 	cancel      context.CancelFunc
 	release     chan struct{}
+	abort       chan struct{}
 	phase       int
 	startFailed bool
 	status      int
@@ -164,6 +165,8 @@ type blockBody struct {
 	r    *reqState
 	data *bytes.Reader
 	once sync.Once
+
+	aborted bool
 }
 
 func (b *blockBody) Read(p []byte) (int, error) {
@@ -172,8 +175,15 @@ func (b *blockBody) Read(p []byte) (int, error) {
 		b.r.phase = phWorking
 		b.g.cond.Broadcast()
 		b.g.mu.Unlock()
-		<-b.r.release
+		select {
+		case <-b.r.release:
+		case <-b.r.abort:
+			b.aborted = true
+		}
 	})
+	if b.aborted {
+		return 0, context.Canceled // the client went away while the body was being read
+	}
 	return b.data.Read(p)
 }
 func (b *blockBody) Close() error { return nil }
@@ -272,9 +282,12 @@ func run(raw json.RawMessage) (common.Case, error) {
 	emptyV1, _ := proto.Marshal(&prompb.WriteRequest{})
 	emptyV1 = snappy.Encode(nil, emptyV1)
 
-	arrive := func(ep string) {
+	arrive := func(ep string, dead bool) *reqState {
 		ctx, cancel := context.WithCancel(context.Background())
-		r := &reqState{id: len(g.reqs), ep: ep, cancel: cancel, release: make(chan struct{})}
+		if dead {
+			cancel() // the client is already gone when the request reaches the gate
+		}
+		r := &reqState{id: len(g.reqs), ep: ep, cancel: cancel, release: make(chan struct{}), abort: make(chan struct{})}
 		ctx = context.WithValue(ctx, ctxKey{}, r)
 		g.mu.Lock()
 		g.reqs = append(g.reqs, r)
@@ -308,6 +321,7 @@ func run(raw json.RawMessage) (common.Case, error) {
 				h.VerifC24ReceiveHTTP(rec, req)
 			}
 		}()
+		return r
 	}
 	oldest := func(phase int) *reqState {
 		g.mu.Lock()
@@ -315,6 +329,16 @@ func run(raw json.RawMessage) (common.Case, error) {
 		for _, r := range g.reqs {
 			if r.phase == phase {
 				return r
+			}
+		}
+		return nil
+	}
+	newest := func(phase int) *reqState {
+		g.mu.Lock()
+		defer g.mu.Unlock()
+		for i := len(g.reqs) - 1; i >= 0; i-- {
+			if g.reqs[i].phase == phase {
+				return g.reqs[i]
 			}
 		}
 		return nil
@@ -360,10 +384,29 @@ func run(raw json.RawMessage) (common.Case, error) {
 		var resolved string
 		switch o.Op {
 		case "arrive":
-			arrive(o.EP)
+			arrive(o.EP, false)
 			resolved = common.App("OArrive", epCoq(o.EP))
-		case "cancel":
-			if r := oldest(phWaiting); r != nil {
+		case "arrive_dead":
+			// Start may pick either ready case of its select when the gate has
+			// room: what happened is observed after quiescence
+			r := arrive(o.EP, true)
+			if err := g.waitQuiescent(); err != nil {
+				return c, err
+			}
+			g.mu.Lock()
+			failed := r.startFailed
+			g.mu.Unlock()
+			if failed {
+				resolved = common.App("OArriveDead", epCoq(o.EP))
+			} else {
+				resolved = common.App("OArrive", epCoq(o.EP))
+			}
+		case "cancel", "cancel_newest":
+			pick := oldest
+			if o.Op == "cancel_newest" {
+				pick = newest
+			}
+			if r := pick(phWaiting); r != nil {
 				g.mu.Lock()
 				r.phase = phCancelling // transient until Start returns
 				g.mu.Unlock()
@@ -378,6 +421,18 @@ func run(raw json.RawMessage) (common.Case, error) {
 				r.phase = phReleased
 				g.mu.Unlock()
 				close(r.release)
+				resolved = "OFinish"
+			} else {
+				resolved = "OFinishNone"
+			}
+		case "abort":
+			// the client gives up while its request is inside the write path
+			if r := oldest(phWorking); r != nil {
+				g.mu.Lock()
+				r.phase = phReleased
+				g.mu.Unlock()
+				r.cancel()
+				close(r.abort)
 				resolved = "OFinish"
 			} else {
 				resolved = "OFinishNone"
@@ -408,7 +463,7 @@ func run(raw json.RawMessage) (common.Case, error) {
 	c.Class = fmt.Sprintf("max%d", in.Max)
 	cancels := 0
 	for _, s := range steps {
-		if bytes.Contains([]byte(s), []byte("OCancel ")) {
+		if bytes.Contains([]byte(s), []byte("OCancel ")) || bytes.Contains([]byte(s), []byte("OArriveDead")) {
 			cancels++
 		}
 	}
@@ -432,11 +487,15 @@ func gen(r *rand.Rand, tier string, n int) []any {
 		for j := 0; j < k; j++ {
 			switch x := r.Intn(100); {
 			case x < pa:
-				in.Ops = append(in.Ops, op{Op: "arrive", EP: common.Pick(r, "http", "http", "otlp")})
+				o := op{Op: "arrive", EP: common.Pick(r, "http", "http", "otlp")}
+				if r.Intn(8) == 0 {
+					o.Op = "arrive_dead"
+				}
+				in.Ops = append(in.Ops, o)
 			case x < pa+(100-pa)/2:
-				in.Ops = append(in.Ops, op{Op: "cancel"})
+				in.Ops = append(in.Ops, op{Op: common.Pick(r, "cancel", "cancel", "cancel_newest")})
 			default:
-				in.Ops = append(in.Ops, op{Op: "finish"})
+				in.Ops = append(in.Ops, op{Op: common.Pick(r, "finish", "finish", "finish", "abort")})
 			}
 		}
 		out = append(out, in)
